@@ -37,7 +37,12 @@ def handleConc (st : ConcState) : List String → Option (ConcState × String)
       pure ({ σ := { pub := p } }, "ok")
   | ["insert", seq, n] => do
       let seq ← seq.toNat?; let n ← n.toNat?
-      pure (verdict st (applyAct st (.writeInsert (dummyEntries seq n))) "insert-not-enabled(seq-not-consecutive-or-transaction-open)")
+      -- numbers consumed without entries (a group whose journal write failed, `db.addSeq` on the error
+      -- path) show up as a gap before the next group: replay it as `seqSkip`
+      let gap := seq - (st.σ.pub + st.σ.pending.length + 1)
+      let acts := if gap > 0 ∧ st.σ.pending = [] then [Action.seqSkip gap, .writeInsert (dummyEntries seq n)]
+                  else [.writeInsert (dummyEntries seq n)]
+      pure (verdict st (applyActs st acts) "insert-not-enabled(seq-not-consecutive-or-transaction-open)")
   | ["publish", seq] => do
       let seq ← seq.toNat?
       match applyAct st .publish with
